@@ -27,6 +27,9 @@ def _var_def(b, name):
                 out.append(flow.describe_rvalue(b, payload, names=True))
             elif kind == "call":
                 out.append("call")
+    # a same-named variable of an inlined helper handed on unchanged is one definition, not two
+    if len(out) > 1:
+        out = [d for d in out if d != "var(%s)" % name] or out[:1]
     return out
 
 
